@@ -16,6 +16,8 @@ CHECKS = {
          "Not decided: 'released size >= requested size' as a number (arithmetic of C12); behaviour of a faulty base allocator."),
  "C14": ("Claim protocol: diverging already-claimed test, replace with the CLAIMED constant, reclaim of the claimant's current chunk on guard drop, guard not Clone and built in one place (R1); every classifier consumer separates Claimed from NonDummy and fallible ones return E::claimed() before any effect (R2); geometry of the four dummy headers read from the statics' MIR (capacity -16, self-contained, no links) and direction selection (R3); guard derefs to its claimant scope (R4).",
          "Not decided: that is_last is false for the dummy position for every user pointer (provenance argument, not computed); numeric behaviour of the bump primitives on the dummy range (C11)."),
+ "C15": ("Interface discipline of MutBumpVec/MutBumpVecRev/MutBumpString and the *_mut helpers incl. helper functions they reach: only prepare/statistics calls, commit only in finalisers, tabled fast-path exceptions (R1); no position write reachable from the prepare primitives except the lazy reset of a later chunk (R2); drop glue reaches no allocator method (R3); prepared commits and growth copies as affine normal forms relative to the prepared range, up/down x forward/reverse (R4).",
+         "Not decided: the numbers (padding bounds), contents of the elements."),
  "C19": ("Ownership protocol of the pool, which discharges the schedule quantifier statically: idle stack only behind the mutex and no stray unsafe (R1); pop -> guard(ManuallyDrop, no Clone) -> take in Drop -> push, guard constructed only in the get family (R2); constructor calls only after pop() returned None (R3); pool-wide reset forwards (R5). Lifetime / Send / Sync clauses are decided by rustc on the witness corpus (R4, with C04).",
          "Not decided: fairness and timing; 'number of arenas never exceeds the peak' as a number (follows from R2+R3, not computed)."),
  "C10": ("Every written position value is min-aligned by construction and the aligner helpers have their canonical form (R1, R1c); accounting identities allocated+remaining=capacity, size-capacity=header size and the Stats/AnyStats sum shapes (R2, affine value numbering); typed == type-erased accessors as affine normal forms (R3) and no size-dependent arithmetic on the erased header (R3b); chunk list link protocol (R4); recorded chunk size = aligned granted size (R5).",
